@@ -244,7 +244,7 @@ def check_phased_sort(prog, ctx):
     merged = [a for a in walk_own(f.node) if isinstance(a, ast.Assign) and src(a.targets[0]) == seq and src(a.value) == "[*l_oddpos, *r_oddpos]"]
     ctx.check(len(merged) == 1, rid, f, f.node, "merge", "the sort starts from left labels followed by right labels")
     outs = [a for a in walk_own(f.node) if isinstance(a, ast.Assign) and src(a.targets[0]) == "new._oddpos"]
-    early = [n for n in walk_own(f.node) if isinstance(n, ast.If) and src(n.test) == "not l_oddpos and not r_oddpos"]
+    early = [n for n in walk_own(f.node) if isinstance(n, ast.If) and src(n.test).replace("(", "").replace(")", "") == "not l_oddpos and not r_oddpos"]
     # the early-return branch assigns inside an `if`: walk the whole function for the stores
     outs = [a for a in ast.walk(f.node) if isinstance(a, ast.Assign) and src(a.targets[0]) == "new._oddpos"]
     ok = len(outs) == 2 and {src(a.value) for a in outs} == {"()", f"tuple({seq})"} and len(early) == 1 and isinstance(early[0].body[-1], ast.Return)
